@@ -92,6 +92,13 @@ class JsonTracer:
     def _record(self, dumper, event, chunk, err):
         name = next((n for c, n in EVNAME if isinstance(event, c)), 'other')
         tr = self.open.get(id(dumper))
+        if tr is not None and name == 'streamstart' and tr['events']:
+            # a new Dumper at the address of an abandoned one (its dump
+            # failed before the stream ended and it was garbage collected):
+            # the old trace ends here as an abandoned dump
+            self.traces.append(tr)
+            del self.open[id(dumper)]
+            tr = None
         if tr is None:
             req = dumper._requested_indent
             tr = {'req': -1 if req is None else req,
